@@ -89,11 +89,18 @@ Bijective(t, seen) ==
 
 \* C07: the serialized datum validates against the serialization schema built under the same
 \* options (exclude_defaults / exclude_none as settings); known design gaps excluded
+\* a regular field whose external name matches the pattern of a pattern-properties field (F-pattern-overlap)
+PatOverlapS(cls) ==
+  LET fs == UClasses[cls].fields IN
+  \E i, j \in DOMAIN fs : /\ fs[i].props = "pat" /\ fs[j].props = "no" /\ ~fs[j].flat
+                          /\ \E n \in DOMAIN Ctx(O).S[Ext(Ctx(O), fs[j])].pats : Ctx(O).S[Ext(Ctx(O), fs[j])].pats[n] = fs[i].pat
 RECURSIVE UsesFeatureS(_, _, _)
 UsesFeatureS(t, feat, seen) ==
-  CASE t.k = "obj" -> t.cls \notin seen /\ \E i \in DOMAIN UClasses[t.cls].fields :
+  CASE t.k = "obj" -> t.cls \notin seen /\
+                      (\/ feat = "patoverlap" /\ PatOverlapS(t.cls)
+                       \/ \E i \in DOMAIN UClasses[t.cls].fields :
                           (feat = "flattened" /\ UClasses[t.cls].fields[i].flat)
-                          \/ UsesFeatureS(UClasses[t.cls].fields[i].type, feat, seen \cup {t.cls})
+                          \/ UsesFeatureS(UClasses[t.cls].fields[i].type, feat, seen \cup {t.cls}))
     [] t.k = "newtype" -> UsesFeatureS(t.sup, feat, seen)
     [] t.k = "annot" -> UsesFeatureS(t.t, feat, seen)
     [] t.k = "coll"  -> UsesFeatureS(t.e, feat, seen)
@@ -105,7 +112,7 @@ UsesFeatureS(t, feat, seen) ==
     [] OTHER -> FALSE
 SerSchemaAccepts == Validates(Ctx(O), "s", SchemaOf(Ctx(O), "s", T, <<>>, {}), AsData(res))
 SerValidates ==
-  (phase = "done" /\ ~HasSErr(res) /\ \A g \in {"flattened", "discriminated"} : ~UsesFeatureS(T, g, {}))
+  (phase = "done" /\ ~HasSErr(res) /\ \A g \in {"flattened", "discriminated", "patoverlap"} : ~UsesFeatureS(T, g, {}))
      => SerSchemaAccepts
 
 Init == /\ T \in Types /\ O \in SOptsFor(T)
@@ -117,7 +124,7 @@ Run == /\ phase = "value"
        /\ Emit => PrintT(ToJson([type |-> T, opts |-> O, value |-> v, expect |-> res',
                                  any |-> SerAny(Ctx(O), v),
                                  bij |-> Bijective(T, {}), ambig |-> Ambig(Ctx(O), T, {}),
-                                 gaps |-> {g \in {"flattened", "discriminated"} : UsesFeatureS(T, g, {})},
+                                 gaps |-> {g \in {"flattened", "discriminated", "patoverlap"} : UsesFeatureS(T, g, {})},
                                  saccept |-> IF HasSErr(res') THEN TRUE
                                              ELSE Validates(Ctx(O), "s", SchemaOf(Ctx(O), "s", T, <<>>, {}), AsData(res'))]))
 Next == PickValue \/ Run
@@ -130,9 +137,11 @@ JsonOnly == phase = "done" => (HasSErr(res) \/ IsJson(res))
 \* C04: serialize(v) without a type equals serialize(type(v), v) for class instances
 AnyEqTyped == (phase = "done" /\ T.k = "obj" /\ v.k = "inst" /\ ~HasSErr(res)) => SerNorm(SerAny(Ctx(O), v)) = SerNorm(res)
 
-\* C05: deserialize(T, serialize(T, v)) = v on the bijective fragment (same options both ways)
+\* C05: deserialize(T, serialize(T, v)) = v on the bijective fragment (same options both ways).
+\* exclude_none is outside the property (it quantifies over aliasers and additional_properties):
+\* a REQUIRED Optional field dropped by exclude_none cannot come back (class OR)
 RoundTrip ==
-  (phase = "done" /\ Bijective(T, {}) /\ ~HasSErr(res)) =>
+  (phase = "done" /\ Bijective(T, {}) /\ ~HasSErr(res) /\ ~O.exn) =>
      LET back == RD(Ctx(O), T, <<>>, AsData(res)) IN
        IsUnspec(back) \/ (back.ok /\ ImageEq(Ctx(O), T, v, back.v))
 =============================================================================
